@@ -464,6 +464,15 @@ def leaves(g, var, D):
             walk(e[2], dom & T)
             walk(e[3], dom - T)
         else:
+            inner = _find_ite(e)
+            if inner is not None:
+                # a piecewise sub-expression inside the leaf (e.g. a +/- bias chosen by sign): split on its condition
+                T = truth(inner[1], var)
+                if T is None:
+                    raise Undecided("condition not analysable: " + gate.show(inner[1])[:200])
+                walk(gate.subst(e, inner, inner[2]), dom & T)
+                walk(gate.subst(e, inner, inner[3]), dom - T)
+                return
             out.append((dom, e))
     walk(g, D)
     return out
